@@ -1,4 +1,238 @@
+/-
+C08 — lexicon specifiers and language codes select exactly the documented lexicons.
+Model: `Model/Glob.lean` (SQLite GLOB, `find_lexicons`).
+-/
 import WnVerif.Model.Glob
+import WnVerif.Model.Api
 namespace WnVerif.Props.C08
-theorem placeholder_true : True := trivial
+open WnVerif.Glob WnVerif.Db
+
+def PlainC (c : Char) : Prop := c ≠ '*' ∧ c ≠ '?' ∧ c ≠ '['
+
+/-- a pattern without metacharacters matches exactly itself (`id:version` selects exactly that lexicon) -/
+theorem glob_plain : ∀ (p s : List Char) (fuel : Nat), (∀ c ∈ p, PlainC c) → p.length ≤ fuel →
+    (glob fuel p s = true ↔ s = p) := by
+  intro p
+  induction p with
+  | nil => intro s fuel _ _; cases s <;> simp [glob]
+  | cons c p ih =>
+    intro s fuel hp hf
+    have hc := hp c (by simp)
+    obtain ⟨h1, h2, h3⟩ := hc
+    cases s with
+    | nil => simp [glob, h1, h2, h3]
+    | cons d s =>
+      cases fuel with
+      | zero => simp at hf
+      | succ f =>
+        have := ih s f (fun c hc => hp c (by simp [hc])) (by simp at hf; omega)
+        simp [glob, h1, h2, h3, this]
+        intro _; exact eq_comm
+
+theorem C08_literal (p s : List Char) (hp : ∀ c ∈ p, PlainC c) : globL p s = true ↔ s = p :=
+  glob_plain p s _ hp (by omega)
+
+/-- `*` matches every string (`'*'` selects all lexicons) -/
+theorem glob_star_all : ∀ (s : List Char) (fuel : Nat), s.length < fuel → glob fuel ['*'] s = true := by
+  intro s
+  induction s with
+  | nil => intro fuel h; cases fuel with
+    | zero => omega
+    | succ f => simp [glob]
+  | cons c s ih =>
+    intro fuel h
+    cases fuel with
+    | zero => omega
+    | succ f =>
+      have := ih f (by simp at h; omega)
+      simp [glob, this]
+
+theorem C08_star (s : List Char) : globL ['*'] s = true :=
+  glob_star_all s _ (by simp; omega)
+
+/-- a plain prefix followed by `*` matches exactly the strings with that prefix
+(`id:*` selects all versions of an id: the prefix is `id:`) -/
+theorem glob_prefix_star : ∀ (p s : List Char) (fuel : Nat), (∀ c ∈ p, PlainC c) → p.length + s.length < fuel →
+    (glob fuel (p ++ ['*']) s = true ↔ p.isPrefixOf s = true) := by
+  intro p
+  induction p with
+  | nil =>
+    intro s fuel _ hf
+    simp [glob_star_all s fuel (by simpa using hf)]
+  | cons c p ih =>
+    intro s fuel hp hf
+    obtain ⟨h1, h2, h3⟩ := hp c (by simp)
+    cases s with
+    | nil => simp [glob, h1, h2, h3]
+    | cons d s =>
+      cases fuel with
+      | zero => omega
+      | succ f =>
+        have := ih s f (fun c hc => hp c (by simp [hc])) (by simp at hf; omega)
+        simp [glob, h1, h2, h3, this, List.isPrefixOf]
+
+theorem C08_id_star (p s : List Char) (hp : ∀ c ∈ p, PlainC c) :
+    globL (p ++ ['*']) s = true ↔ p.isPrefixOf s = true :=
+  glob_prefix_star p s _ hp (by simp [List.length_append]; omega)
+
+theorem pickLast_mem : ∀ (rows : List RLexicon) (y : RLexicon), pickLast rows = some y → y ∈ rows := by
+  intro rows
+  induction rows with
+  | nil => intro y h; simp [pickLast] at h
+  | cons a t ih =>
+    intro y h
+    simp only [pickLast] at h
+    cases hp : pickLast t with
+    | none => rw [hp] at h; simp at h; subst h; simp
+    | some x =>
+      rw [hp] at h
+      simp only at h
+      split at h
+      · simp at h; subst h; simp
+      · simp at h; subst h; exact List.mem_cons_of_mem _ (ih x hp)
+
+theorem pickLast_max : ∀ (rows : List RLexicon) (y : RLexicon), pickLast rows = some y →
+    ∀ z ∈ rows, z.rowid ≤ y.rowid := by
+  intro rows
+  induction rows with
+  | nil => intro y h; simp [pickLast] at h
+  | cons a t ih =>
+    intro y h z hz
+    simp only [pickLast] at h
+    cases hp : pickLast t with
+    | none =>
+      rw [hp] at h; simp at h; subst h
+      cases t with
+      | nil => simp at hz; subst hz; exact Nat.le_refl _
+      | cons b t' =>
+        simp only [pickLast] at hp
+        split at hp
+        · simp at hp
+        · split at hp <;> simp at hp
+    | some x =>
+      rw [hp] at h
+      simp only at h
+      have hx := ih x hp
+      split at h
+      · rename_i hlt
+        simp at h; subst h
+        rcases List.mem_cons.mp hz with rfl | hz
+        · exact Nat.le_refl _
+        · exact Nat.le_of_lt (Nat.lt_of_le_of_lt (hx z hz) hlt)
+      · rename_i hnlt
+        simp at h; subst h
+        rcases List.mem_cons.mp hz with rfl | hz
+        · omega
+        · exact hx z hz
+
+/-- every lexicon returned for a specifier matches it by GLOB and has the requested language:
+"a lexicon matched by none of the given specifiers is never selected" -/
+theorem C08_never_unmatched (db : Db) (spec : List Char) (lang : Option String) (r : RLexicon)
+    (h : r ∈ matchSpecifier db spec lang) : r ∈ db.lexicons ∧ specMatches spec lang r = true := by
+  unfold matchSpecifier at h
+  simp only at h
+  split at h
+  · simpa [List.mem_filter] using h
+  · cases hp : pickLast (db.lexicons.filter (specMatches spec lang)) with
+    | none => rw [hp] at h; simp at h
+    | some y =>
+      rw [hp] at h
+      simp at h; subst h
+      simpa [List.mem_filter] using pickLast_mem _ _ hp
+
+/-- starred or colon-containing specifiers select *all* matching lexicons -/
+theorem C08_all_matching (db : Db) (spec : List Char) (lang : Option String)
+    (hs : (spec.contains '*' || spec.contains ':') = true) (r : RLexicon) :
+    r ∈ matchSpecifier db spec lang ↔ r ∈ db.lexicons ∧ specMatches spec lang r = true := by
+  unfold matchSpecifier
+  simp only [hs, if_true, List.mem_filter]
+
+/-- a bare id selects exactly one lexicon when some lexicon matches: the one with the greatest
+rowid, i.e. (rowids are allocated as max+1) the most recently added one -/
+theorem C08_bare_most_recent (db : Db) (spec : List Char) (lang : Option String)
+    (hb : (spec.contains '*' || spec.contains ':') = false) :
+    (matchSpecifier db spec lang = [] ∧ ∀ r ∈ db.lexicons, specMatches spec lang r = false) ∨
+    (∃ y, matchSpecifier db spec lang = [y] ∧ y ∈ db.lexicons ∧ specMatches spec lang y = true ∧
+      ∀ z ∈ db.lexicons, specMatches spec lang z = true → z.rowid ≤ y.rowid) := by
+  unfold matchSpecifier
+  simp only [hb, Bool.false_eq_true, if_false]
+  cases hp : pickLast (db.lexicons.filter (specMatches spec lang)) with
+  | none =>
+    left
+    refine ⟨rfl, ?_⟩
+    intro r hr
+    cases hm : specMatches spec lang r with
+    | false => rfl
+    | true =>
+      have : r ∈ db.lexicons.filter (specMatches spec lang) := List.mem_filter.mpr ⟨hr, hm⟩
+      cases hl : db.lexicons.filter (specMatches spec lang) with
+      | nil => rw [hl] at this; simp at this
+      | cons a t =>
+        rw [hl] at hp
+        simp only [pickLast] at hp
+        split at hp
+        · simp at hp
+        · split at hp <;> simp at hp
+  | some y =>
+    right
+    have hy := pickLast_mem _ _ hp
+    have hmax := pickLast_max _ _ hp
+    simp only [List.mem_filter] at hy
+    exact ⟨y, rfl, hy.1, hy.2, fun z hz hm => hmax z (List.mem_filter.mpr ⟨hz, hm⟩)⟩
+
+/-- a bare id never selects more than one lexicon -/
+theorem C08_bare_at_most_one (db : Db) (spec : List Char) (lang : Option String)
+    (hb : (spec.contains '*' || spec.contains ':') = false) : (matchSpecifier db spec lang).length ≤ 1 := by
+  unfold matchSpecifier
+  simp only [hb, Bool.false_eq_true, if_false]
+  split <;> simp
+
+/-- the language code restricts to lexicons of that language -/
+theorem C08_lang (db : Db) (spec : List Char) (l : String) (r : RLexicon)
+    (h : r ∈ matchSpecifier db spec (some l)) : r.language = l := by
+  have := (C08_never_unmatched db spec (some l) r h).2
+  simp only [specMatches, Bool.and_eq_true, beq_iff_eq] at this
+  exact this.2
+
+/-- a request that matches nothing is an error exactly when it specifies something -/
+theorem C08_none_error_vs_empty (db : Db) (lexicon : String) (lang : Option String) :
+    findLexicons db lexicon lang = none ↔
+      ((splitWs lexicon.toList).flatMap (fun sp => matchSpecifier db sp lang) = [] ∧ (lexicon ≠ "*" ∨ lang.isSome)) := by
+  unfold findLexicons
+  simp only
+  split
+  · rename_i h
+    simp only [Bool.and_eq_true, List.isEmpty_iff, Bool.or_eq_true, bne_iff_ne, ne_eq] at h
+    simp [h.1, h.2]
+  · rename_i h
+    simp only [Bool.and_eq_true, List.isEmpty_iff, Bool.or_eq_true, bne_iff_ne, ne_eq, not_and] at h
+    simp only [reduceCtorEq, false_iff, not_and]
+    intro he
+    have := h he
+    simpa using this
+
+/-- the result of a space-separated list is the concatenation (union) of its specifiers' results -/
+theorem C08_union (db : Db) (lexicon : String) (lang : Option String) (rows : List RLexicon)
+    (h : findLexicons db lexicon lang = some rows) :
+    rows = (splitWs lexicon.toList).flatMap (fun sp => matchSpecifier db sp lang) := by
+  unfold findLexicons at h
+  simp only at h
+  split at h
+  · simp at h
+  · simpa using h.symm
+
+/-- non-vacuity: two versions added in the order 2020, 2019 — the bare id selects 2019 -/
+def demoDb : Db := { lexicons := [
+  { rowid := 1, id := "ewn", label := "", language := "en", email := "", license := "", version := "2020", url := none, citation := none, logo := none, md := none },
+  { rowid := 2, id := "ewn", label := "", language := "en", email := "", license := "", version := "2019", url := none, citation := none, logo := none, md := none },
+  { rowid := 3, id := "ewnx", label := "", language := "de", email := "", license := "", version := "2019", url := none, citation := none, logo := none, md := none }] }
+
+theorem C08_example :
+    ((findLexicons demoDb "ewn" none).map (·.map (·.version))) = some ["2019"] ∧
+    ((findLexicons demoDb "ewn:*" none).map (·.map (·.version))) = some ["2020", "2019"] ∧
+    ((findLexicons demoDb "*:2019" none).map (·.map (·.id))) = some ["ewn", "ewnx"] ∧
+    ((findLexicons demoDb "ewn ewnx:*" (some "de")).map (·.map (·.id))) = some ["ewnx"] ∧
+    findLexicons demoDb "zz" none = none ∧ findLexicons Db.empty "*" none = some [] := by
+  decide +kernel
+
 end WnVerif.Props.C08
